@@ -27,7 +27,9 @@ Ceil5(x) == (x + 4) \div 5
 \* whose start was given up (required process failed under ABORT / STOP), lost targets, orders received
 \* ran / exok: processes truly seen RUNNING / exited as expected since their request; acked: seen busy since then
 GInit == [req |-> {}, sreq |-> {}, since |-> 0, aborted |-> {}, lost |-> {}, orders |-> [i \in 1..8 |-> 0],
-          everAlive |-> {}, ran |-> {}, exok |-> {}, stamp |-> <<>>, preq |-> {}, stamp0 |-> <<>>, elect |-> FALSE]   \* preq: requested by the current plan   \* stamp[p][v]: refresh stamp of p at v when p was requested
+          everAlive |-> {}, ran |-> {}, exok |-> {}, stamp |-> <<>>, preq |-> {}, stamp0 |-> <<>>, elect |-> FALSE,
+          reqby |-> <<>>,     \* reqby[p]: the instance that sent the last start request of p
+          sreqby |-> <<>>]    \* sreqby[p]: same for the last stop request   \* preq: requested by the current plan   \* stamp[p][v]: refresh stamp of p at v when p was requested
 
 Truth(st, p, i) == st.truth[p][i]
 RunsSomewhere(st, p) == \E i \in 1..T.n : Truth(st, p, i) \in RunningLike
@@ -135,7 +137,15 @@ GStep(st, pre, gg0) ==
                                          Truth(st, p, i) \in {"RUNNING", "EXITED_OK", "EXITED_KO"}
                                          \/ (st.alive[i] /\ View(st, i, p) = "RUNNING")}
       exok1 == (gg.exok \ starts) \cup {p \in req1 \ starts : \E i \in 1..T.n : Truth(st, p, i) = "EXITED_OK"}
-      g2 == [gg EXCEPT !.req = req1, !.sreq = @ \cup stops, !.stamp = stamp1, !.lost = lost1, !.ran = ran1,
+      reqby1 == [p \in P |-> IF \E j \in DOMAIN st.reqs : st.reqs[j][1] = "START" /\ st.reqs[j][4] = p
+                              THEN (CHOOSE x \in {st.reqs[j][2] : j \in {y \in DOMAIN st.reqs : st.reqs[y][1] = "START"
+                                                                                                  /\ st.reqs[y][4] = p}} : TRUE)
+                              ELSE IF gg.reqby = <<>> THEN 0 ELSE gg.reqby[p]]
+      sreqby1 == [p \in P |-> IF \E j \in DOMAIN st.reqs : st.reqs[j][1] = "STOP" /\ st.reqs[j][4] = p
+                               THEN (CHOOSE x \in {st.reqs[j][2] : j \in {y \in DOMAIN st.reqs : st.reqs[y][1] = "STOP"
+                                                                                                   /\ st.reqs[y][4] = p}} : TRUE)
+                               ELSE IF gg.sreqby = <<>> THEN 0 ELSE gg.sreqby[p]]
+      g2 == [gg EXCEPT !.reqby = reqby1, !.sreqby = sreqby1, !.req = req1, !.sreq = (@ \ starts) \cup stops, !.stamp = stamp1, !.lost = lost1, !.ran = ran1,
                        !.exok = exok1, !.preq = @ \cup starts]
       \* the instance that runs the plan: where the user issued the trigger, else the Master
       planners == IF T.trigger_node # 0 THEN {T.trigger_node} ELSE {v \in 1..T.n : st.alive[v] /\ st.master[v] = v}
@@ -175,6 +185,27 @@ Terminal(st, gg) ==
                 (~BusySomewhere(st, p) /\ \A i \in 1..T.n : Truth(st, p, i) # "FATAL") =>
                 \A i \in 1..T.n : st.alive[i] => View(st, i, p) \notin Busy
            THEN {} ELSE {"C10.GiveUpVisible"})
+     \* ... a stop that was abandoned (or whose STOPPED event was lost) is displayed as not running everywhere
+     \* (F15: an instance lost while the process is STOPPING there leaves STOPPING displayed - listed finding)
+     \* (when events are dropped by the scenario - for every remote receiver - only the instance that asked for the
+     \* stop can notice and repair: the others are judged when nothing is dropped)
+     \cup (LET judged(p) == IF T.has_drops THEN {gg.sreqby[p]} \ {0} ELSE 1..T.n
+               bad == {p \in gg.sreq : ~BusySomewhere(st, p) /\ \E i \in judged(p) : st.alive[i] /\ View(st, i, p) \in Busy}
+           IN IF bad = {} THEN {}
+              ELSE IF \A p \in bad : ~st.alive[T.procs[p].target]
+                                      /\ \A i \in 1..T.n : st.alive[i] => View(st, i, p) \notin (Busy \ {"STOPPING"})
+                   THEN {"KNOWN.F15"} ELSE {"C10.GiveUpVisible"})
+     \* ... and an abandoned start is reported FATAL (the target is still there and never had the process running:
+     \* the request or its events were lost): by the instance that ran the plan for sure; F23: another instance may
+     \* dismiss the forced state when its own record of the process is younger than the requester's
+     \cup (LET abandoned == {p \in gg.req \ (gg.ran \cup gg.exok \cup gg.sreq) :
+                              ~BusySomewhere(st, p) /\ st.alive[T.procs[p].target] /\ p \notin gg.lost
+                              /\ \A i \in 1..T.n : Truth(st, p, i) \in {"STOPPED", "NONE"}}
+           IN IF T.wait_exit_forever \/ gg.elect
+                 \/ \A p \in abandoned : \A i \in 1..T.n : st.alive[i] => View(st, i, p) = "FATAL"
+              THEN {}
+              ELSE IF \A p \in abandoned : (gg.reqby[p] # 0 /\ st.alive[gg.reqby[p]]) => View(st, gg.reqby[p], p) = "FATAL"
+                   THEN {"KNOWN.F23"} ELSE {"C10.GiveUpReported"})
      \cup (IF T.wait_exit_forever \/ \A i \in 1..T.n : ~(st.alive[i] /\ (st.jobs[i][1] \/ st.jobs[i][2]))
            THEN {} ELSE {"C10.Terminates"})
      \* C08: nobody stays parked in DISTRIBUTION (or anywhere else) once the sequences are over
